@@ -1,5 +1,6 @@
 import Abyss.Render
 import Abyss.Lemmas.Vu64L
+import Abyss.Lemmas.SizesL
 /-!
 # C09 — any key or value length fits its slot
 
@@ -9,48 +10,119 @@ layout (`valContent`, `keyContent`, `freeContent`).  `len < 2^31` is the guard o
 arithmetic of the Rust code (the property's own bound is 2^24).
 -/
 namespace Abyss
+open Vu64 Sizes
 
 /-- a slot size the allocator can produce: a multiple of 8, at least 16, below 2^32. -/
 def LegalSize (s : Nat) : Prop := 8 ∣ s ∧ 16 ≤ s ∧ s < 2^32
 
 /-- the slot requested for a value is legal -/
-theorem C09_valueNeed_legal (len : Nat) (h : len < 2^31) : LegalSize (valueNeed len) := by sorry
+theorem C09_valueNeed_legal (len : Nat) (h : len < 2^31) : LegalSize (valueNeed len) := by
+  rw [valueNeed_eq len (by omega)]
+  have hs := roundup_val_spec (encodedLen ((valPl len + 7) / 8) + valPl len)
+  have h1 := encodedLen_le_nine ((valPl len + 7) / 8)
+  have h2 := encodedLen_le_nine len
+  unfold LegalSize valPl at *
+  omega
+
+/-- the record fits any legal slot that has room for the estimated size (value) -/
+private theorem value_fits_of_le (v : List Nat) (h : v.length < 2^31) (S : Nat)
+    (hS : LegalSize S) (hle : valueNeed v.length ≤ S) : (valContent S v).length ≤ S := by
+  rw [valContent_length]
+  rw [valueNeed_eq v.length (by omega)] at hle
+  have hs := roundup_val_spec (encodedLen ((valPl v.length + 7) / 8) + valPl v.length)
+  exact fits_arith (valPl v.length) S hS.1 hS.2.2 (by omega)
 
 /-- a value of any length fits the slot requested for it -/
 theorem C09_value_fits (v : List Nat) (h : v.length < 2^31) :
-    (valContent (valueNeed v.length) v).length ≤ valueNeed v.length := by sorry
+    (valContent (valueNeed v.length) v).length ≤ valueNeed v.length :=
+  value_fits_of_le v h _ (C09_valueNeed_legal v.length h) (Nat.le_refl _)
 
+-- `hv`, `hn` are not needed: the bounds hold for arbitrary offsets (`encodedLen _ ≤ 9`)
+set_option linter.unusedVariables false in
 /-- the slot requested for a key record is legal -/
 theorem C09_keyNeed_legal (r : KeyRec) (hk : r.key.length < 2^31) (hv : r.valOff < 2^63)
-    (hn : r.next < 2^63) : LegalSize (keyNeed r) := by sorry
+    (hn : r.next < 2^63) : LegalSize (keyNeed r) := by
+  rw [keyNeed_eq r (by omega)]
+  have hs := roundup_key_spec (encodedLen ((keyPlEst r + 7) / 8) + keyPlEst r)
+  have h1 := encodedLen_le_nine ((keyPlEst r + 7) / 8)
+  have h2 := encodedLen_le_nine r.key.length
+  have h3 := encodedLen_le_nine r.valOff
+  have h4 := encodedLen_le_nine r.next
+  unfold LegalSize keyPlEst at *
+  omega
+
+/-- the record fits any legal slot that has room for the estimated size (key) -/
+private theorem key_fits_of_le (r : KeyRec) (hk : r.key.length < 2^31) (S : Nat)
+    (hS : LegalSize S) (hle : keyNeed r ≤ S) : (keyContent S r).length ≤ S := by
+  rw [keyContent_length]
+  rw [keyNeed_eq r (by omega)] at hle
+  have hs := roundup_key_spec (encodedLen ((keyPlEst r + 7) / 8) + keyPlEst r)
+  have hpl := keyPl_le_est r
+  have hmono : encodedLen ((keyPl r + 7) / 8) ≤ encodedLen ((keyPlEst r + 7) / 8) :=
+    encodedLen_mono (Nat.div_le_div_right (by omega))
+  exact fits_arith (keyPl r) S hS.1 hS.2.2 (by omega)
 
 /-- a key record of any key length and any offsets fits the slot requested for it -/
 theorem C09_key_fits (r : KeyRec) (hk : r.key.length < 2^31) (hv : r.valOff < 2^63)
     (hn : r.next < 2^63) :
-    (keyContent (keyNeed r) r).length ≤ keyNeed r := by sorry
+    (keyContent (keyNeed r) r).length ≤ keyNeed r :=
+  key_fits_of_le r hk _ (C09_keyNeed_legal r hk hv hn) (Nat.le_refl _)
 
 /-- rewriting in place, or into a larger slot popped from the free list: the record fits any
 legal slot that is at least as large as the requested one (the size field can then be longer) -/
 theorem C09_value_fits_larger (v : List Nat) (h : v.length < 2^31) (S : Nat) (hS : LegalSize S)
-    (hle : valueNeed v.length ≤ S) : (valContent S v).length ≤ S := by sorry
+    (hle : valueNeed v.length ≤ S) : (valContent S v).length ≤ S :=
+  value_fits_of_le v h S hS hle
 
+-- `hv`, `hn` are not needed here either
+set_option linter.unusedVariables false in
 theorem C09_key_fits_larger (r : KeyRec) (hk : r.key.length < 2^31) (hv : r.valOff < 2^63)
     (hn : r.next < 2^63) (S : Nat) (hS : LegalSize S) (hle : keyNeed r ≤ S) :
-    (keyContent S r).length ≤ S := by sorry
+    (keyContent S r).length ≤ S :=
+  key_fits_of_le r hk S hS hle
 
 /-- a free-slot record fits every legal slot -/
-theorem C09_free_fits (S nx : Nat) (hS : LegalSize S) : (freeContent S nx).length ≤ S := by sorry
+theorem C09_free_fits (S nx : Nat) (hS : LegalSize S) : (freeContent S nx).length ≤ S := by
+  rw [freeContent_length]
+  have h5 : encodedLen (S / 8) ≤ 5 := encodedLen_le_five (by have := hS.2.2; omega)
+  have := hS.2.1
+  omega
 
 /-- a rendered slot has exactly its size, so the next slot starts where this one ends -/
 theorem C09_renderValSlot_length (S : Nat) (v : List Nat) (h : v.length < 2^31) (hS : LegalSize S)
-    (hle : valueNeed v.length ≤ S) : (renderValSlot (.used S v)).length = S := by sorry
+    (hle : valueNeed v.length ≤ S) : (renderValSlot (.used S v)).length = S := by
+  show (padTo S (valContent S v)).length = S
+  exact padTo_length (C09_value_fits_larger v h S hS hle)
 
 theorem C09_renderKeySlot_length (S : Nat) (r : KeyRec) (hk : r.key.length < 2^31)
     (hv : r.valOff < 2^63) (hn : r.next < 2^63) (hS : LegalSize S) (hle : keyNeed r ≤ S) :
-    (renderKeySlot (.used S r)).length = S := by sorry
+    (renderKeySlot (.used S r)).length = S := by
+  show (padTo S (keyContent S r)).length = S
+  exact padTo_length (C09_key_fits_larger r hk hv hn S hS hle)
 
-/-- non-vacuity: the hypotheses are met by concrete records on class edges -/
-example : valueNeed 14 = 16 ∧ valueNeed 15 = 24 ∧ valueNeed 1021 = 1024 ∧ valueNeed 1022 = 1152 := by
-  sorry
+/-- the free-slot rendering has exactly its size too (not asked for, same argument) -/
+theorem C09_renderFreeSlot_length (S nx : Nat) (hS : LegalSize S) :
+    (renderValSlot (.free S nx)).length = S ∧ (renderKeySlot (.free S nx)).length = S :=
+  ⟨padTo_length (C09_free_fits S nx hS), padTo_length (C09_free_fits S nx hS)⟩
+
+/- non-vacuity, AS ORIGINALLY STATED — **FALSE**, kept for the record:
+
+example : valueNeed 14 = 16 ∧ valueNeed 15 = 24 ∧ valueNeed 1021 = 1024 ∧ valueNeed 1022 = 1152
+
+Counterexample (third conjunct): `#eval valueNeed 1021` = 1152, not 1024.
+`Gen.valueEncodedPieceSize 1021 = (2, 1023, 1021)`, so the request is 2 + 1023 = 1025 > 1024.
+The class edge is two bytes lower: `valueNeed 1019 = 1024` (request 2 + 1021 = 1023) and
+`valueNeed 1020 = 1152` (request 2 + 1022 = 1024).  Note that a request of *exactly* 1024 is
+rounded to 1152, not 1024: `roundup` searches only the first 15 table entries (≤ 896) and then
+computes `((x + 128) / 128) * 128`, which is the next multiple of 128 *strictly above* `x`
+(`Gen.roundup valCfg.sizeAry 1024 = 1152`, `Gen.roundup valCfg.sizeAry 1023 = 1024`). -/
+
+/-- the false conjunct of the original example, refuted -/
+example : valueNeed 1021 ≠ 1024 := by decide
+
+/-- non-vacuity (CORRECTED variant): the hypotheses are met by concrete records on class edges -/
+example : valueNeed 14 = 16 ∧ valueNeed 15 = 24 ∧ valueNeed 1019 = 1024 ∧ valueNeed 1020 = 1152
+    ∧ valueNeed 1021 = 1152 ∧ valueNeed 1022 = 1152 := by
+  decide
 
 end Abyss
